@@ -172,6 +172,47 @@ theorem table_has_mutating_rows_of_every_kind :
     (∃ row ∈ table, row.mutates = true ∧ row.kind = .self) := by
   decide +kernel
 
+/-- **Identity resolution is exact.**  A credential that names `n` resolves to the stored account
+called exactly `n` – whatever other accounts are stored before or after it, whatever their names
+look like (wildcard characters, other case, surrounding spaces, prefixes of `n` …): accounts with a
+different name can be added or removed without changing the result. -/
+theorem lookup_ignores_other_accounts {α : Type} (accounts : List (String × α)) (n : String) :
+    lookupAccount accounts n = lookupAccount (accounts.filter fun a => a.1 == n) n := by
+  unfold lookupAccount
+  congr 1
+  induction accounts with
+  | nil => rfl
+  | cons a as ih =>
+    by_cases h : (a.1 == n) = true
+    · simp [h]
+    · simp [h, ih]
+
+/-- … and what it returns is an account whose stored name is `n` (none if there is none). -/
+theorem lookup_exact {α : Type} (accounts : List (String × α)) (n : String) (x : α)
+    (h : lookupAccount accounts n = some x) : (n, x) ∈ accounts := by
+  unfold lookupAccount at h
+  cases hf : accounts.find? (fun a => a.1 == n) with
+  | none => simp [hf] at h
+  | some a =>
+    simp only [hf, Option.map_some, Option.some.injEq] at h
+    have hm := List.mem_of_find?_eq_some hf
+    have hp := List.find?_some hf
+    simp only [beq_iff_eq] at hp
+    obtain ⟨a1, a2⟩ := a
+    simp only at hp h
+    subst hp; subst h
+    exact hm
+
+/-- non-vacuity: names that other lookup machinery would confuse resolve to themselves -/
+example :
+    let accs : List (String × Nat) := [("admin", 1), ("user", 2), ("ad_in", 3), ("%", 4), ("Admin", 5),
+                                       ("admin ", 6), ("adm", 7), ("_____", 8)]
+    lookupAccount accs "ad_in" = some 3 ∧ lookupAccount accs "%" = some 4 ∧
+      lookupAccount accs "Admin" = some 5 ∧ lookupAccount accs "admin " = some 6 ∧
+      lookupAccount accs "adm" = some 7 ∧ lookupAccount accs "_____" = some 8 ∧
+      lookupAccount accs "ADMIN" = none := by
+  decide
+
 /-- **Replay records are deleted at server start only.**  Every call of `prune_database` – the
 only code that deletes CSRF replay records – found anywhere under dashlive/ is the one in
 `create_app` … -/
